@@ -9,6 +9,8 @@ open LE
 
 structure DState where
   cls : Cls
+  /-- the automaton of the last table seen (a pure cache: `buildTrie` of that table) -/
+  cache : Option (String × Trie TVal) := none
 
 def defaultCls : Cls := ⟨fun _ => false, fun _ => false, fun x => [x]⟩
 
@@ -204,11 +206,21 @@ def encPC : SC.PC → SX
   | .use r => .list [.tag "use", .num r]
   | .done b => .list [.tag "done", .num b.added, SX.ofBool b.converted]
 
+def cachedTrie (st : DState) (table : SX) : DState × Trie TVal :=
+  let k := table.toStr
+  match st.cache with
+  | some (k', tr) => if k == k' then (st, tr) else
+      let tr := buildTrie st.cls (decTable table)
+      ({ st with cache := some (k, tr) }, tr)
+  | none =>
+      let tr := buildTrie st.cls (decTable table)
+      ({ st with cache := some (k, tr) }, tr)
+
 def handle (st : DState) (op : String) (args : List SX) : DState × SX :=
   let c := st.cls
   match op, args with
   | "echo", [x] => (st, x)
-  | "cls", [rows] => ({ st with cls := mkCls rows.getList }, .tag "ok")
+  | "cls", [rows] => ({ st with cls := mkCls rows.getList, cache := none }, .tag "ok")
   | "lex", [text] =>
     (st, .list ((pieces c text.getStr).map (fun p => SX.list [.num p.start, .tag (match p.kind with | .word => "word" | .blank => "blank" | .lpar => "lpar" | .rpar => "rpar"), .str p.text])))
   | "words", [text] => (st, encStrs (wordsOf c text.getStr))
@@ -225,7 +237,8 @@ def handle (st : DState) (op : String) (args : List SX) : DState × SX :=
       | .ok r => .list [.tag "ok", .list (r.map encSTok)]
       | .error e => encLErr e)
   | "ltok", [table, simple, strict, text] =>
-    (st, match ltok c (decTable table) simple.getBool strict.getBool text.getStr with
+    let (st, tr) := cachedTrie st table
+    (st, match ltokW c (decTable table) tr simple.getBool strict.getBool text.getStr with
       | .ok r => .list [.tag "ok", .list (r.map encPTok)]
       | .error e => encLErr e)
   | "bparse", [toks] =>
@@ -234,9 +247,11 @@ def handle (st : DState) (op : String) (args : List SX) : DState × SX :=
       | .ok e => encOutcome (.ok e)
       | .error (e, idx) => encOutcome (ofPErr ts e idx))
   | "parse", [table, simple, strict, validate, text] =>
-    (st, encOutcome (parseFull c (decTable table) simple.getBool strict.getBool validate.getBool text.getStr))
+    let (st, tr) := cachedTrie st table
+    (st, encOutcome (parseFullW c (decTable table) tr simple.getBool strict.getBool validate.getBool text.getStr))
   | "validate", [table, strict, text] =>
-    (st, encVOutcome (validateFull c (decTable table) strict.getBool text.getStr))
+    let (st, tr) := cachedTrie st table
+    (st, encVOutcome (validateFullW c (decTable table) tr strict.getBool text.getStr))
   | "render", [t] => (st, .str (renderStr (decTree t)))
   | "readable", [t] => (st, .str (renderReadable (fun a => a.key) (decTree t)))
   | "rendert", [pre, post, t] => (st, .str (renderT (fun a => pre.getStr ++ a.key ++ post.getStr) (decTree t)))
@@ -311,4 +326,4 @@ partial def loop (h : IO.FS.Stream) (out : IO.FS.Stream) (st : DState) : IO Unit
 def main : IO Unit := do
   let stdin ← IO.getStdin
   let stdout ← IO.getStdout
-  loop stdin stdout ⟨defaultCls⟩
+  loop stdin stdout { cls := defaultCls }
